@@ -59,6 +59,7 @@ type Scenario struct {
 	DelayMenu        []time.Duration `json:"delay_menu,omitempty"`
 	AllowErr         []string        `json:"allow_err,omitempty"` // timeout noresp closed
 	AllowLost        bool            `json:"allow_lost,omitempty"`
+	WatchBroken      []string        `json:"watch_broken,omitempty"` // instances whose Watch requests always fail (time-out): they live on the periodic check alone
 	AllowHang        bool            `json:"allow_hang,omitempty"`
 	AllowDrop        bool            `json:"allow_drop,omitempty"`
 	AllowDup         bool            `json:"allow_dup,omitempty"`
